@@ -75,6 +75,8 @@ let () =
   let extra = Hashtbl.create 64 in
   let bump tbl k = Hashtbl.replace tbl k (1 + try Hashtbl.find tbl k with Not_found -> 0) in
   let dead = ref false in
+  (* what the implementation itself showed at receive time: sample id -> content (model-free canary oracle) *)
+  let impl_expect : (string, string) Hashtbl.t = Hashtbl.create 64 in
   let printed = Hashtbl.create 64 in
   let last_line = ref "" in
   let case_saturated = ref false and case_canary_bad = ref false and inv_bad = ref false in
@@ -96,7 +98,7 @@ let () =
       let toks = List.filter (fun s -> s <> "") (String.split_on_char ' ' line) in
       match toks with
       | "C" :: _variant :: s :: p :: b :: m :: h :: ovf :: e :: _ ->
-        flush_case (); incr case_no; op_no := 0; dead := false;
+        flush_case (); incr case_no; op_no := 0; dead := false; Hashtbl.reset impl_expect;
         Buffer.add_string cur_case (String.concat " " [s; p; b; m; h; ovf; e] ^ "|");
         let i x = nat_of_int (int_of_string x) in
         let cfg = { cf_S = i s; cf_P = i p; cf_B = i b; cf_M = i m; cf_H = i h; cf_ovf = (ovf = "1"); cf_E = i e } in
@@ -108,6 +110,21 @@ let () =
         let impl = match obs with o :: _ -> o | [] -> "?" in
         Buffer.add_string cur_case (name ^ " " ^ String.concat " " args ^ ";");
         bump opcount name;
+        (* "x<id>:<origin>:<content>" *)
+        (if name = "rx" && String.length impl > 1 && impl.[0] = 'x' then
+           match String.split_on_char ':' impl with
+           | [xid; _; pl] -> Hashtbl.replace impl_expect (String.sub xid 1 (String.length xid - 1)) pl
+           | _ -> ());
+        if !dead then begin
+          (* the model replay stopped at the first kind=model mismatch of this case; the oracles that need
+             only the implementation's own observations keep running: no panic, no OutOfMemory *)
+          if impl = "P" then begin
+            incr mm_spec;
+            report ("deadP" ^ name) (Printf.sprintf "MISMATCH case=%d op=%d kind=spec prop=C08 key=pubsub:panic:%s line=[%s] spec=no-panic impl=P (after model divergence)\n" !case_no !op_no name line) end;
+          if impl = "eOom" || (String.length impl > 4 && String.sub impl (String.length impl - 4) 4 = "eOom") then begin
+            incr mm_spec;
+            report "deadoom" (Printf.sprintf "MISMATCH case=%d op=%d kind=spec prop=C02,C08 key=pubsub:out-of-memory line=[%s] spec=never-OutOfMemory impl=%s (after model divergence)\n" !case_no !op_no line impl) end
+        end;
         if not !dead then begin
           match !w with
           | None -> failwith "op before case"
@@ -183,6 +200,17 @@ let () =
                w := Some w1)
         end
       | "K" :: vals ->
+        if !dead then begin
+          (* model-free canary: every held sample still shows what the implementation showed at receive time *)
+          List.iter (fun v -> match String.split_on_char '=' v with
+            | [id; pl] ->
+              (match Hashtbl.find_opt impl_expect id with
+               | Some e when e <> pl ->
+                 incr mm_spec;
+                 report "deadK" (Printf.sprintf "MISMATCH case=%d op=%d kind=spec prop=C02 key=pubsub:held-sample-content-changed-after-model-divergence line=[%s] after=[%s] spec=%s=%s impl=%s\n" !case_no !op_no line !last_line id e v)
+               | _ -> ())
+            | _ -> ()) vals
+        end;
         if not !dead then begin
           match !w with
           | None -> ()
